@@ -3,357 +3,8 @@
    then the induction over the expression productions of the token grammar, threading the lexer's three stacks. *)
 From JP Require Import Base.Prelude Base.Json Model.Regex Model.Tokens Model.Lex Model.Ast Model.Parse Model.Serialize Model.Api Spec.Types Spec.StringLit Spec.Printable
   Proofs.StringProofs Proofs.LexString Proofs.LexNoCrash Proofs.LexInv Proofs.Requery Proofs.Reparse Proofs.ReparseF Proofs.ParseComplete Proofs.ParseSound
-  Proofs.LexShape Proofs.LexSpell Proofs.AbnfDerive Proofs.TextSound Proofs.EvalProofs Proofs.LexComplete.
+  Proofs.LexShape Proofs.LexSpell Proofs.AbnfDerive Proofs.TextSound Proofs.EvalProofs Proofs.LexComplete Proofs.NumMatch.
 From Coq Require Import ZifyBool ZifyN.
-
-(* what may follow a number: not a digit, not an exponent mark, not a dot (nor a minus sign or a colon) *)
-Definition numfol (c : N) : Prop :=
-  isd c = false /\ in_ranges c [(101, 101); (69, 69)]%N = false /\ in_ranges c [(46, 46)]%N = false
-  /\ in_ranges c cls_digit = false /\ in_ranges c [(45, 45)]%N = false /\ in_ranges c [(58, 58)]%N = false.
-
-Lemma int_match_g sign body c r : (sign = [] \/ sign = [45%N]) -> body <> [] -> forallb isd body = true -> numfol c ->
-  re_match RE_INT ((sign ++ body) ++ c :: r) = Some (zlen (sign ++ body)).
-Proof.
-  intros Hs Hne Hd Hc. destruct Hc as (_ & HcE & _ & HcD & _).
-  destruct body as [|d ds']; [congruence|]. cbn [forallb] in Hd. apply andb_true_iff in Hd as [Hd1 Hd2].
-  destruct (digit_facts d Hd1) as (Ed & _ & _ & E45 & _).
-  assert (Hds : forallb (fun x => in_ranges x cls_digit) ds' = true).
-  { rewrite forallb_forall in *. intros x Hx. apply (digit_facts x (Hd2 x Hx)). }
-  unfold re_match. set (s := (sign ++ d :: ds') ++ c :: r).
-  replace (8 * length s + 64)%nat with (S (S (S (S (S (S (S (S (8 * length s + 56)))))))))%nat by lia.
-  unfold RE_INT, re_minus_opt, re_digits, re_eE, ROpt, RPlus, RChar. subst s.
-  assert (Hk : forall F n, (4 <= F)%nat -> rm F (RAlt (RSeq (RClass false [(101, 101); (69, 69)]%N)
-                 (RSeq (RAlt (RClass false [(43, 43)]%N) REps) (RSeq (RClass false cls_digit) (RStar (RClass false cls_digit))))) REps) (c :: r) n (fun _ n0 => Some n0) = Some n).
-  { intros F n HF. destruct F as [|[|[|F]]]; try lia. rewrite rm_alt_S, rm_seq_S, rm_class_S, HcE. cbn [xorb]. rewrite rm_eps_S. reflexivity. }
-  destruct Hs as [-> | ->]; cbn [app].
-  - rewrite rm_seq_S, rm_alt_S, rm_class_S, E45. cbn [xorb]. rewrite rm_eps_S, rm_seq_S, rm_seq_S, rm_class_S, Ed. cbn [xorb].
-    rewrite (star_class cls_digit ds' _ (0 + 1) (c :: r) _ (zlen (d :: ds'))); [reflexivity | exact Hds | exact HcD | cbn [length app]; rewrite app_length; cbn [length]; lia |].
-    rewrite Hk by (cbn [length app]; lia). f_equal. unfold zlen. cbn [length]. lia.
-  - rewrite rm_seq_S, rm_alt_S, rm_class_S. change (in_ranges 45 [(45, 45)]%N) with true. cbn [xorb]. rewrite rm_seq_S, rm_seq_S, rm_class_S, Ed. cbn [xorb].
-    rewrite (star_class cls_digit ds' _ (0 + 1 + 1) (c :: r) _ (zlen (45%N :: d :: ds'))); [reflexivity | exact Hds | exact HcD | cbn [length app]; rewrite app_length; cbn [length]; lia |].
-    rewrite Hk by (cbn [length app]; lia). f_equal. unfold zlen. cbn [length]. lia.
-Qed.
-
-Lemma float_nomatch_g sign body c r : (sign = [] \/ sign = [45%N]) -> body <> [] -> forallb isd body = true -> numfol c ->
-  re_match RE_FLOAT ((sign ++ body) ++ c :: r) = None.
-Proof.
-  intros Hs Hne Hd Hc. destruct Hc as (_ & HcE & Hc46 & HcD & Hc45 & Hc58).
-  assert (Hhd : forall x, (isd x = true \/ x = c) -> in_ranges x [(101, 101); (69, 69)]%N = false /\ in_ranges x [(46, 46)]%N = false).
-  { intros x [Hx | ->]; [destruct (digit_facts x Hx) as (_ & A & B & _); split; assumption | split; assumption]. }
-  (* after the digits a '.' (first alternative) or an exponent mark (second) is required *)
-  assert (K1 : forall F (K : list N -> Z -> option Z) R x tl n', (isd x = true \/ x = c) -> rm F (RSeq (RClass false [(46, 46)]%N) R) (x :: tl) n' K = None).
-  { intros F K R x tl n' Hx. destruct F as [|[|F]]; try reflexivity. rewrite rm_seq_S, rm_class_S. rewrite (proj2 (Hhd x Hx)). reflexivity. }
-  assert (K2 : forall F (K : list N -> Z -> option Z) R x tl n', (isd x = true \/ x = c) -> rm F (RSeq (RClass false [(101, 101); (69, 69)]%N) R) (x :: tl) n' K = None).
-  { intros F K R x tl n' Hx. destruct F as [|[|F]]; try reflexivity. rewrite rm_seq_S, rm_class_S. rewrite (proj1 (Hhd x Hx)). reflexivity. }
-  destruct body as [|d ds']; [congruence|]. pose proof Hd as Hd0. cbn [forallb] in Hd. apply andb_true_iff in Hd as [Hd1 _].
-  destruct (digit_facts d Hd1) as (Ed & _ & _ & E45 & E58).
-  unfold re_match. set (F := (8 * length ((sign ++ d :: ds') ++ c :: r) + 64)%nat). clearbody F.
-  unfold RE_FLOAT, re_minus_opt, re_digits, re_eE, ROpt, RPlus, RChar.
-  destruct F as [|F]; [reflexivity|]. rewrite rm_alt_S.
-  (* the minus sign, if any: both ways of reading it fail *)
-  assert (A : forall F R, (forall F' x tl n' K, (isd x = true \/ x = c) -> rm F' R (x :: tl) n' K = None) ->
-              forall n K, rm F (RSeq (RAlt (RClass false [(45, 45)]%N) REps) (RSeq (RSeq (RClass false cls_digit) (RStar (RClass false cls_digit))) R)) ((sign ++ d :: ds') ++ c :: r) n K = None).
-  { intros F0 R HR n K. destruct F0 as [|F0]; [reflexivity|]. rewrite rm_seq_S. destruct F0 as [|F0]; [reflexivity|]. rewrite rm_alt_S.
-    assert (Hdig : forall F1 (l : list N) n1, forallb isd l = true -> rm F1 (RSeq (RSeq (RClass false cls_digit) (RStar (RClass false cls_digit))) R) (l ++ c :: r) n1 K = None).
-    { intros F1 l n1 Hl. destruct F1 as [|F1]; [reflexivity|]. rewrite rm_seq_S. apply digits_then_fail; [exact Hl | exact HcD|]. intros x tl n' Hx. apply HR. exact Hx. }
-    destruct Hs as [-> | ->]; cbn [app].
-    - destruct F0 as [|F0]; [reflexivity|]. rewrite rm_class_S, E45. cbn [xorb]. destruct F0 as [|F0]; [reflexivity|]. rewrite rm_eps_S.
-      apply (Hdig _ (d :: ds') n Hd0).
-    - destruct F0 as [|F0]; [reflexivity|]. rewrite rm_class_S. change (in_ranges 45 [(45, 45)]%N) with true. cbn [xorb].
-      rewrite (Hdig _ (d :: ds') (n + 1) Hd0). destruct F0 as [|F0]; [reflexivity|]. rewrite rm_eps_S.
-      destruct F0 as [|F0]; [reflexivity|]. rewrite rm_seq_S. destruct F0 as [|F0]; [reflexivity|]. rewrite rm_seq_S. destruct F0 as [|F0]; [reflexivity|]. rewrite rm_class_S. reflexivity. }
-  assert (E1 : rm F (RSeq (RAlt (RClass false [(58, 58)]%N) REps)
-                 (RSeq (RAlt (RClass false [(45, 45)]%N) REps) (RSeq (RSeq (RClass false cls_digit) (RStar (RClass false cls_digit)))
-                   (RSeq (RClass false [(46, 46)]%N) (RSeq (RSeq (RClass false cls_digit) (RStar (RClass false cls_digit)))
-                     (RAlt (RSeq (RClass false [(101, 101); (69, 69)]%N) (RSeq (RAlt (RClass false [(43, 43); (45, 45)]%N) REps) (RSeq (RClass false cls_digit) (RStar (RClass false cls_digit))))) REps))))))
-              ((sign ++ d :: ds') ++ c :: r) 0 (fun _ n => Some n) = None).
-  { destruct F as [|F]; [reflexivity|]. rewrite rm_seq_S. destruct F as [|F]; [reflexivity|]. rewrite rm_alt_S.
-    assert (E58' : forall F1 K1', rm F1 (RClass false [(58, 58)]%N) ((sign ++ d :: ds') ++ c :: r) 0 K1' = None).
-    { intros F1 K1'. destruct F1 as [|F1]; [reflexivity|]. rewrite rm_class_S. destruct Hs as [-> | ->]; cbn [app]; [rewrite E58 | ]; reflexivity. }
-    rewrite E58'. destruct F as [|F]; [reflexivity|]. rewrite rm_eps_S. apply A. intros F' x tl n' K Hx. apply K1. exact Hx. }
-  rewrite E1. apply A. intros F' x tl n' K Hx. apply K2. exact Hx.
-Qed.
-
-(* sign digits "." digits followed by such a character: the FLOAT pattern takes exactly that *)
-Definition re_exp_opt : re := RAlt (RSeq (RClass false [(101, 101); (69, 69)]%N) (RSeq (RAlt (RClass false [(43, 43); (45, 45)]%N) REps) (RSeq (RClass false cls_digit) (RStar (RClass false cls_digit))))) REps.
-Definition re_dd : re := RSeq (RClass false cls_digit) (RStar (RClass false cls_digit)).
-
-Lemma exp_none c r G n : in_ranges c [(101, 101); (69, 69)]%N = false -> (4 <= G)%nat -> rm G re_exp_opt (c :: r) n (fun _ n0 => Some n0) = Some n.
-Proof. intros HcE HG. destruct G as [|[|[|G]]]; try lia. unfold re_exp_opt. rewrite rm_alt_S, rm_seq_S, rm_class_S, HcE. cbn [xorb]. rewrite rm_eps_S. reflexivity. Qed.
-
-Lemma frac_rm f fs' c r G n : in_ranges f cls_digit = true -> forallb (fun x => in_ranges x cls_digit) fs' = true -> in_ranges c cls_digit = false ->
-  in_ranges c [(101, 101); (69, 69)]%N = false -> (12 + length fs' <= G)%nat ->
-  rm G (RSeq (RClass false [(46, 46)]%N) (RSeq re_dd re_exp_opt)) (46%N :: (f :: fs') ++ c :: r) n (fun _ n0 => Some n0) = Some (n + 1 + zlen (f :: fs')).
-Proof.
-  intros Ef Hfs HcD HcE HG. destruct G as [|[|[|[|[|G]]]]]; try lia. unfold re_dd. rewrite rm_seq_S, rm_class_S. change (in_ranges 46 [(46, 46)]%N) with true. cbn [xorb].
-  rewrite rm_seq_S, rm_seq_S, rm_class_S. cbn [app]. rewrite Ef. cbn [xorb].
-  rewrite (star_class cls_digit fs' _ (n + 1 + 1) (c :: r) _ (n + 1 + zlen (f :: fs'))); [reflexivity | exact Hfs | exact HcD | lia |].
-  rewrite exp_none by (try assumption; lia). f_equal. unfold zlen. cbn [length]. lia.
-Qed.
-Lemma int_frac_rm d ds' f fs' c r G n : in_ranges d cls_digit = true -> forallb (fun x => in_ranges x cls_digit) ds' = true ->
-  in_ranges f cls_digit = true -> forallb (fun x => in_ranges x cls_digit) fs' = true -> in_ranges c cls_digit = false ->
-  in_ranges c [(101, 101); (69, 69)]%N = false -> (20 + length ds' + length fs' <= G)%nat ->
-  rm G (RSeq re_dd (RSeq (RClass false [(46, 46)]%N) (RSeq re_dd re_exp_opt))) ((d :: ds') ++ 46%N :: (f :: fs') ++ c :: r) n (fun _ n0 => Some n0)
-  = Some (n + zlen (d :: ds') + 1 + zlen (f :: fs')).
-Proof.
-  intros Ed Hds Ef Hfs HcD HcE HG. destruct G as [|[|[|G]]]; try lia. unfold re_dd at 1. rewrite rm_seq_S, rm_seq_S, rm_class_S. cbn [app]. rewrite Ed. cbn [xorb].
-  rewrite (star_class cls_digit ds' _ (n + 1) (46%N :: (f :: fs') ++ c :: r) _ (n + zlen (d :: ds') + 1 + zlen (f :: fs'))); [reflexivity | exact Hds | reflexivity | lia |].
-  rewrite frac_rm by (try assumption; lia). f_equal. unfold zlen. cbn [length]. lia.
-Qed.
-
-Lemma float_rm sign d ds' f fs' c r : (sign = [] \/ sign = [45%N]) -> isd d = true -> forallb isd ds' = true -> isd f = true -> forallb isd fs' = true -> numfol c ->
-  forall F, (30 + length ds' + length fs' <= F)%nat ->
-  rm F RE_FLOAT (sign ++ (d :: ds') ++ 46%N :: (f :: fs') ++ c :: r) 0 (fun _ n => Some n) = Some (zlen sign + zlen (d :: ds') + 1 + zlen (f :: fs')).
-Proof.
-  intros Hs Hd1 Hd2 Hf1 Hf2 Hc F HF. destruct Hc as (_ & HcE & _ & HcD & _ & _).
-  destruct (digit_facts d Hd1) as (Ed & _ & _ & E45 & E58). destruct (digit_facts f Hf1) as (Ef & _ & _ & _ & _).
-  assert (Hds : forallb (fun x => in_ranges x cls_digit) ds' = true) by (rewrite forallb_forall in *; intros x Hx; apply (digit_facts x (Hd2 x Hx))).
-  assert (Hfs : forallb (fun x => in_ranges x cls_digit) fs' = true) by (rewrite forallb_forall in *; intros x Hx; apply (digit_facts x (Hf2 x Hx))).
-  clear Hd1 Hd2 Hf1 Hf2.
-  change RE_FLOAT with (RAlt (RSeq (RAlt (RClass false [(58, 58)]%N) REps) (RSeq (RAlt (RClass false [(45, 45)]%N) REps) (RSeq re_dd (RSeq (RClass false [(46, 46)]%N) (RSeq re_dd re_exp_opt)))))
-                             (RSeq re_minus_opt (RSeq re_digits (RSeq re_eE (RSeq (RChar 45) re_digits))))).
-  destruct F as [|[|[|[|[|[|F]]]]]]; try lia.
-  rewrite rm_alt_S, rm_seq_S, rm_alt_S.
-  assert (E58' : forall G K, rm G (RClass false [(58, 58)]%N) (sign ++ (d :: ds') ++ 46%N :: (f :: fs') ++ c :: r) 0 K = None).
-  { intros G K. destruct G as [|G]; [reflexivity|]. rewrite rm_class_S. destruct Hs as [-> | ->]; cbn [app]; [rewrite E58 |]; reflexivity. }
-  rewrite E58', rm_eps_S, rm_seq_S, rm_alt_S.
-  destruct Hs as [-> | ->]; cbn [app].
-  - rewrite rm_class_S, E45. cbn [xorb]. rewrite rm_eps_S. change (d :: ds' ++ 46%N :: f :: fs' ++ c :: r) with ((d :: ds') ++ 46%N :: (f :: fs') ++ c :: r).
-    rewrite int_frac_rm by (try assumption; lia). f_equal.
-  - rewrite rm_class_S. change (in_ranges 45 [(45, 45)]%N) with true. cbn [xorb]. change (d :: ds' ++ 46%N :: f :: fs' ++ c :: r) with ((d :: ds') ++ 46%N :: (f :: fs') ++ c :: r).
-    rewrite int_frac_rm by (try assumption; lia). f_equal.
-Qed.
-
-Lemma float_match_g sign ip fp c r : (sign = [] \/ sign = [45%N]) -> ip <> [] -> forallb isd ip = true -> fp <> [] -> forallb isd fp = true -> numfol c ->
-  re_match RE_FLOAT ((sign ++ ip ++ 46%N :: fp) ++ c :: r) = Some (zlen (sign ++ ip ++ 46%N :: fp)).
-Proof.
-  intros Hs Hne Hd Hfne Hfd Hc.
-  destruct ip as [|d ds']; [congruence|]. cbn [forallb] in Hd. apply andb_true_iff in Hd as [Hd1 Hd2].
-  destruct fp as [|f fs']; [congruence|]. cbn [forallb] in Hfd. apply andb_true_iff in Hfd as [Hf1 Hf2].
-  unfold re_match. replace ((sign ++ (d :: ds') ++ 46%N :: f :: fs') ++ c :: r) with (sign ++ (d :: ds') ++ 46%N :: (f :: fs') ++ c :: r) by (rewrite <- !app_assoc; reflexivity).
-  rewrite (float_rm sign d ds' f fs' c r Hs Hd1 Hd2 Hf1 Hf2 Hc).
-  - f_equal. unfold zlen. repeat (progress (rewrite ?app_length; cbn [length])). lia.
-  - repeat (progress (rewrite ?app_length; cbn [length])). lia.
-Qed.
-
-(* ---- numbers with an exponent part ---- *)
-(* after the exponent mark of an INT spelling, "-" does not follow *)
-Lemma exp_no_minus pl f fs rest G n K : (pl = [] \/ pl = [43%N]) -> isd f = true -> rm G (RSeq (RClass false [(45, 45)]%N) K) (pl ++ f :: fs ++ rest) n (fun _ m => Some m) = None.
-Proof.
-  intros Hps Hf. destruct G as [|[|G]]; try reflexivity. rewrite rm_seq_S, rm_class_S. destruct (digit_facts f Hf) as (_ & _ & _ & E45 & _).
-  destruct Hps as [-> | ->]; cbn [app]; [rewrite E45 |]; reflexivity.
-Qed.
-
-Lemma digits_k_fail body rest F n (k : list N -> Z -> option Z) : forallb isd body = true ->
-  match rest with c :: _ => in_ranges c cls_digit = false | [] => True end ->
-  (forall j n', (j <= length body)%nat -> k (skipn j body ++ rest) n' = None) ->
-  rm F re_dd (body ++ rest) n k = None.
-Proof.
-  intros Hd Hr Hk. unfold re_dd. destruct F as [|f]; [reflexivity|]. rewrite rm_seq_S. destruct f as [|f]; [reflexivity|]. rewrite rm_class_S.
-  destruct body as [|d ds]; cbn [app].
-  - destruct rest as [|c r]; [reflexivity|]. rewrite Hr. reflexivity.
-  - destruct (xorb false (in_ranges d cls_digit)); [|reflexivity]. cbn [forallb] in Hd. apply andb_true_iff in Hd as [_ Hd2].
-    apply star_class_fail; [exact Hr|]. intros j n' Hj. apply (Hk (S j) n'). cbn [length]. lia.
-Qed.
-
-(* sign? digits R  fails when R fails after every way of stopping inside the digits *)
-Lemma minus_digits_fail sg d ds rest R F n (K : list N -> Z -> option Z) : (sg = [] \/ sg = [45%N]) -> isd d = true -> forallb isd ds = true ->
-  match rest with c :: _ => in_ranges c cls_digit = false | [] => True end ->
-  (forall j n' F', (j <= length (d :: ds))%nat -> rm F' R (skipn j (d :: ds) ++ rest) n' K = None) ->
-  rm F (RSeq (RAlt (RClass false [(45, 45)]%N) REps) (RSeq re_dd R)) (sg ++ (d :: ds) ++ rest) n K = None.
-Proof.
-  intros Hs Hd1 Hd2 Hr HR. destruct (digit_facts d Hd1) as (Ed & _ & _ & E45 & _).
-  assert (Hdig : forall F1 n1, rm F1 (RSeq re_dd R) ((d :: ds) ++ rest) n1 K = None).
-  { intros F1 n1. destruct F1 as [|F1]; [reflexivity|]. rewrite rm_seq_S. apply digits_k_fail; [cbn [forallb]; rewrite Hd1, Hd2; reflexivity | exact Hr|]. intros j n' Hj. apply HR. exact Hj. }
-  destruct F as [|F]; [reflexivity|]. rewrite rm_seq_S. destruct F as [|F]; [reflexivity|]. rewrite rm_alt_S.
-  destruct Hs as [-> | ->]; cbn [app].
-  - destruct F as [|F]; [reflexivity|]. rewrite rm_class_S, E45. cbn [xorb]. destruct F as [|F]; [reflexivity|]. rewrite rm_eps_S. apply Hdig.
-  - destruct F as [|F]; [reflexivity|]. rewrite rm_class_S. change (in_ranges 45 [(45, 45)]%N) with true. cbn [xorb]. rewrite Hdig.
-    destruct F as [|F]; [reflexivity|]. rewrite rm_eps_S. destruct F as [|F]; [reflexivity|]. rewrite rm_seq_S. unfold re_dd. destruct F as [|F]; [reflexivity|]. rewrite rm_seq_S. destruct F as [|F]; [reflexivity|]. rewrite rm_class_S. reflexivity.
-Qed.
-
-Lemma suffix_head (body : list N) c r j : forallb isd body = true -> (j <= length body)%nat ->
-  (exists x tl, skipn j body ++ c :: r = x :: tl /\ isd x = true) \/ (skipn j body ++ c :: r = c :: r).
-Proof.
-  revert j. induction body as [|b body IH]; intros j Hd Hj.
-  - right. destruct j; reflexivity.
-  - cbn [forallb] in Hd. apply andb_true_iff in Hd as [H1 H2]. destruct j as [|j]; [left; exists b, (body ++ c :: r); split; [reflexivity | exact H1]|]. cbn [skipn]. apply IH; [exact H2 | cbn [length] in Hj; lia].
-Qed.
-
-Lemma float_nomatch_e sg d ds e pl f fs c r : (sg = [] \/ sg = [45%N]) -> isd d = true -> forallb isd ds = true ->
-  in_ranges e [(101, 101); (69, 69)]%N = true -> (pl = [] \/ pl = [43%N]) -> isd f = true -> forallb isd fs = true ->
-  re_match RE_FLOAT (sg ++ (d :: ds) ++ e :: pl ++ f :: fs ++ c :: r) = None.
-Proof.
-  intros Hs Hd1 Hd2 He Hps Hf1 Hf2. destruct (digit_facts d Hd1) as (Ed & _ & _ & E45 & E58).
-  assert (HeD : in_ranges e cls_digit = false /\ in_ranges e [(46, 46)]%N = false) by (unfold cls_digit; cbn [in_ranges] in *; lia).
-  destruct HeD as [HeD He46].
-  unfold re_match. set (F := (8 * length (sg ++ (d :: ds) ++ e :: pl ++ f :: fs ++ c :: r) + 64)%nat). clearbody F.
-  change RE_FLOAT with (RAlt (RSeq (RAlt (RClass false [(58, 58)]%N) REps) (RSeq (RAlt (RClass false [(45, 45)]%N) REps) (RSeq re_dd (RSeq (RClass false [(46, 46)]%N) (RSeq re_dd re_exp_opt)))))
-                             (RSeq (RAlt (RClass false [(45, 45)]%N) REps) (RSeq re_dd (RSeq (RClass false [(101, 101); (69, 69)]%N) (RSeq (RClass false [(45, 45)]%N) re_dd))))).
-  destruct F as [|F]; [reflexivity|]. rewrite rm_alt_S.
-  (* first alternative: a "." is required right after some of the digits *)
-  assert (E1 : forall n K, rm F (RSeq (RAlt (RClass false [(58, 58)]%N) REps) (RSeq (RAlt (RClass false [(45, 45)]%N) REps) (RSeq re_dd (RSeq (RClass false [(46, 46)]%N) (RSeq re_dd re_exp_opt)))))
-                              (sg ++ (d :: ds) ++ e :: pl ++ f :: fs ++ c :: r) n K = None).
-  { intros n K. destruct F as [|F0]; [reflexivity|]. rewrite rm_seq_S. destruct F0 as [|F0]; [reflexivity|]. rewrite rm_alt_S.
-    assert (E58' : forall G K', rm G (RClass false [(58, 58)]%N) (sg ++ (d :: ds) ++ e :: pl ++ f :: fs ++ c :: r) n K' = None).
-    { intros G K'. destruct G as [|G]; [reflexivity|]. rewrite rm_class_S. destruct Hs as [-> | ->]; cbn [app]; [rewrite E58 |]; reflexivity. }
-    rewrite E58'. destruct F0 as [|F0]; [reflexivity|]. rewrite rm_eps_S.
-    apply (minus_digits_fail sg d ds (e :: pl ++ f :: fs ++ c :: r)); try assumption.
-    intros j n' F' Hj. destruct F' as [|[|F']]; try reflexivity. rewrite rm_seq_S, rm_class_S.
-    destruct (suffix_head (d :: ds) e (pl ++ f :: fs ++ c :: r) j ltac:(cbn [forallb]; rewrite Hd1, Hd2; reflexivity) Hj) as [(x & tl & -> & Hx) | ->].
-    - destruct (digit_facts x Hx) as (_ & _ & X46 & _). rewrite X46. reflexivity.
-    - rewrite He46. reflexivity. }
-  rewrite E1.
-  apply (minus_digits_fail sg d ds (e :: pl ++ f :: fs ++ c :: r)); try assumption.
-  intros j n' F' Hj. destruct F' as [|[|F']]; try reflexivity. rewrite rm_seq_S, rm_class_S.
-  destruct (suffix_head (d :: ds) e (pl ++ f :: fs ++ c :: r) j ltac:(cbn [forallb]; rewrite Hd1, Hd2; reflexivity) Hj) as [(x & tl & -> & Hx) | ->].
-  - destruct (digit_facts x Hx) as (_ & XE & _). rewrite XE. reflexivity.
-  - rewrite He. cbn [xorb]. apply exp_no_minus; assumption.
-Qed.
-
-Definition kid : list N -> Z -> option Z := fun _ n => Some n.
-Definition dcls (l : list N) : bool := forallb (fun x => in_ranges x cls_digit) l.
-Lemma isd_dcls l : forallb isd l = true -> dcls l = true.
-Proof. unfold dcls. rewrite !forallb_forall. intros H x Hx. apply (digit_facts x (H x Hx)). Qed.
-
-(* digits+ then whatever the continuation makes of the rest *)
-Lemma dd_rm d ds rest G n (k : list N -> Z -> option Z) x : in_ranges d cls_digit = true -> dcls ds = true ->
-  match rest with c :: _ => in_ranges c cls_digit = false | [] => True end -> (length ds + 4 <= G)%nat ->
-  k rest (n + zlen (d :: ds)) = Some x -> rm G re_dd ((d :: ds) ++ rest) n k = Some x.
-Proof.
-  intros Ed Hds Hr HG Hk. destruct G as [|[|G]]; try lia. unfold re_dd. rewrite rm_seq_S, rm_class_S. cbn [app]. rewrite Ed. cbn [xorb].
-  apply star_class; [exact Hds | exact Hr | lia|]. rewrite <- Hk. f_equal. unfold zlen. cbn [length]. lia.
-Qed.
-
-(* the optional exponent part, present *)
-Lemma expo_rm cls e pm f fs c r G n : in_ranges e [(101, 101); (69, 69)]%N = true -> (pm = [] \/ exists s, pm = [s] /\ in_ranges s cls = true) -> in_ranges f cls = false ->
-  in_ranges f cls_digit = true -> dcls fs = true -> in_ranges c cls_digit = false -> (length fs + 12 <= G)%nat ->
-  rm G (RAlt (RSeq (RClass false [(101, 101); (69, 69)]%N) (RSeq (RAlt (RClass false cls) REps) re_dd)) REps) (e :: pm ++ (f :: fs) ++ c :: r) n kid
-  = Some (n + 1 + zlen pm + zlen (f :: fs)).
-Proof.
-  intros He Hpm Hfc Ef Hfs Hc HG. destruct G as [|[|[|[|[|[|G]]]]]]; try lia.
-  rewrite rm_alt_S, rm_seq_S, rm_class_S, He. cbn [xorb]. rewrite rm_seq_S, rm_alt_S.
-  destruct Hpm as [-> | (s & -> & Hs)]; cbn [app].
-  - rewrite rm_class_S, Hfc. cbn [xorb]. rewrite rm_eps_S.
-    change (f :: fs ++ c :: r) with ((f :: fs) ++ c :: r). rewrite (dd_rm f fs (c :: r) _ (n + 1) _ (n + 1 + zlen (@nil N) + zlen (f :: fs))); [reflexivity | assumption | assumption | exact Hc | lia |].
-    unfold kid, zlen. cbn [length]. f_equal; lia.
-  - rewrite rm_class_S, Hs. cbn [xorb].
-    change (f :: fs ++ c :: r) with ((f :: fs) ++ c :: r). rewrite (dd_rm f fs (c :: r) _ (n + 1 + 1) _ (n + 1 + zlen [s] + zlen (f :: fs))); [reflexivity | assumption | assumption | exact Hc | lia |].
-    unfold kid, zlen. cbn [length]. f_equal; lia.
-Qed.
-
-Lemma sign_rm sg (R : re) rest G n (k : list N -> Z -> option Z) x : (sg = [] \/ sg = [45%N]) ->
-  match rest with c :: _ => in_ranges c [(45, 45)]%N = false | [] => True end -> (4 <= G)%nat ->
-  (forall G', (G <= G' + 4)%nat -> rm G' R rest (n + zlen sg) k = Some x) ->
-  rm G (RSeq (RAlt (RClass false [(45, 45)]%N) REps) R) (sg ++ rest) n k = Some x.
-Proof.
-  intros Hs Hr HG HR. destruct G as [|[|[|[|G]]]]; try lia. rewrite rm_seq_S, rm_alt_S. destruct Hs as [-> | ->]; cbn [app].
-  - rewrite rm_class_S. destruct rest as [|c rest']; [|rewrite Hr; cbn [xorb]]; rewrite rm_eps_S;
-      rewrite <- (HR (S (S (S G))) ltac:(lia)); unfold zlen; cbn [length]; rewrite Z.add_0_r; reflexivity.
-  - rewrite rm_class_S. change (in_ranges 45 [(45, 45)]%N) with true. cbn [xorb].
-    pose proof (HR (S (S (S G))) ltac:(lia)) as E. unfold zlen in E. cbn [length] in E. change (Z.of_nat 1) with 1 in E. rewrite E. reflexivity.
-Qed.
-
-Lemma nd_facts c : isd c = false -> in_ranges c cls_digit = false.
-Proof. unfold isd, cls_digit. cbn [in_ranges]. lia. Qed.
-Lemma eE_facts e : in_ranges e [(101, 101); (69, 69)]%N = true -> in_ranges e cls_digit = false /\ in_ranges e [(46, 46)]%N = false.
-Proof. unfold cls_digit. cbn [in_ranges]. lia. Qed.
-Lemma d_signs f : isd f = true -> in_ranges f [(43, 43)]%N = false /\ in_ranges f [(43, 43); (45, 45)]%N = false.
-Proof. unfold isd. cbn [in_ranges]. lia. Qed.
-Ltac nlia := repeat match goal with H : _ = true |- _ => clear H | H : _ = false |- _ => clear H | H : _ \/ _ |- _ => clear H | H : forall _, _ |- _ => clear H end; lia.
-
-Lemma int_exp_rm sg d ds e pl f fs c r : (sg = [] \/ sg = [45%N]) -> isd d = true -> forallb isd ds = true ->
-  in_ranges e [(101, 101); (69, 69)]%N = true -> (pl = [] \/ pl = [43%N]) -> isd f = true -> forallb isd fs = true -> isd c = false ->
-  forall F, (30 + length ds + length fs <= F)%nat ->
-  rm F RE_INT (sg ++ (d :: ds) ++ e :: pl ++ (f :: fs) ++ c :: r) 0 kid = Some (zlen sg + zlen (d :: ds) + 1 + zlen pl + zlen (f :: fs)).
-Proof.
-  intros Hs Hd1 Hd2 He Hps Hf1 Hf2 Hc F HF.
-  destruct (digit_facts d Hd1) as (Ed & _ & _ & E45 & _). destruct (digit_facts f Hf1) as (Ef & _ & _ & _ & _).
-  pose proof (isd_dcls _ Hd2) as Hds. pose proof (isd_dcls _ Hf2) as Hfs.
-  pose proof (nd_facts c Hc) as HcD.
-  destruct (eE_facts e He) as [HeD He46].
-  destruct (d_signs f Hf1) as [Hf43 _].
-  change RE_INT with (RSeq (RAlt (RClass false [(45, 45)]%N) REps) (RSeq re_dd (RAlt (RSeq (RClass false [(101, 101); (69, 69)]%N) (RSeq (RAlt (RClass false [(43, 43)]%N) REps) re_dd)) REps))).
-  apply sign_rm; [exact Hs | cbn [app]; exact E45 | nlia|].
-  intros G' HG'. destruct G' as [|G']; [nlia|]. rewrite rm_seq_S.
-  apply dd_rm; [exact Ed | exact Hds | exact HeD | nlia|].
-  rewrite (expo_rm [(43, 43)]%N e pl f fs c r); try assumption; [f_equal; nlia | | nlia].
-  destruct Hps as [-> | ->]; [left; reflexivity | right; exists 43%N; split; reflexivity].
-Qed.
-
-(* the first alternative of the FLOAT pattern, the exponent part left to a hypothesis *)
-Lemma float1_rm sg d ds f fs tail x : (sg = [] \/ sg = [45%N]) -> isd d = true -> forallb isd ds = true -> isd f = true -> forallb isd fs = true ->
-  match tail with c :: _ => in_ranges c cls_digit = false | [] => True end ->
-  forall B, (forall G', (B <= G')%nat -> rm G' re_exp_opt tail (zlen sg + zlen (d :: ds) + 1 + zlen (f :: fs)) kid = Some x) ->
-  forall F, (B + 30 + length ds + length fs <= F)%nat ->
-  rm F RE_FLOAT (sg ++ (d :: ds) ++ 46%N :: (f :: fs) ++ tail) 0 kid = Some x.
-Proof.
-  intros Hs Hd1 Hd2 Hf1 Hf2 Ht B HB F HF.
-  destruct (digit_facts d Hd1) as (Ed & _ & _ & E45 & E58). destruct (digit_facts f Hf1) as (Ef & _ & _ & _ & _).
-  pose proof (isd_dcls _ Hd2) as Hds. pose proof (isd_dcls _ Hf2) as Hfs. clear Hd1 Hd2 Hf1 Hf2.
-  change RE_FLOAT with (RAlt (RSeq (RAlt (RClass false [(58, 58)]%N) REps) (RSeq (RAlt (RClass false [(45, 45)]%N) REps) (RSeq re_dd (RSeq (RClass false [(46, 46)]%N) (RSeq re_dd re_exp_opt)))))
-                             (RSeq re_minus_opt (RSeq re_digits (RSeq re_eE (RSeq (RChar 45) re_digits))))).
-  destruct F as [|[|[|[|F]]]]; try nlia.
-  rewrite rm_alt_S, rm_seq_S, rm_alt_S.
-  assert (E58' : forall G K, rm G (RClass false [(58, 58)]%N) (sg ++ (d :: ds) ++ 46%N :: (f :: fs) ++ tail) 0 K = None).
-  { intros G K. destruct G as [|G]; [reflexivity|]. rewrite rm_class_S. destruct Hs as [-> | ->]; cbn [app]; [rewrite E58 |]; reflexivity. }
-  rewrite E58', rm_eps_S.
-  rewrite (sign_rm sg _ ((d :: ds) ++ 46%N :: (f :: fs) ++ tail) _ 0 kid x); [reflexivity | exact Hs | cbn [app]; exact E45 | nlia |].
-  intros G' HG'. destruct G' as [|G']; [nlia|]. rewrite rm_seq_S.
-  apply dd_rm; [exact Ed | exact Hds | reflexivity | nlia|].
-  destruct G' as [|[|G']]; try nlia. rewrite rm_seq_S, rm_class_S. change (in_ranges 46 [(46, 46)]%N) with true. cbn [xorb]. rewrite rm_seq_S.
-  apply dd_rm; [exact Ef | exact Hfs | exact Ht | nlia|].
-  rewrite <- (HB G' ltac:(nlia)). f_equal; nlia.
-Qed.
-
-Lemma float_alt1_fail sg d ds x tl F n K : (sg = [] \/ sg = [45%N]) -> isd d = true -> forallb isd ds = true ->
-  in_ranges x cls_digit = false -> in_ranges x [(46, 46)]%N = false ->
-  rm F (RSeq (RAlt (RClass false [(58, 58)]%N) REps) (RSeq (RAlt (RClass false [(45, 45)]%N) REps) (RSeq re_dd (RSeq (RClass false [(46, 46)]%N) (RSeq re_dd re_exp_opt)))))
-       (sg ++ (d :: ds) ++ x :: tl) n K = None.
-Proof.
-  intros Hs Hd1 Hd2 HxD Hx46. destruct (digit_facts d Hd1) as (Ed & _ & _ & E45 & E58).
-  destruct F as [|F0]; [reflexivity|]. rewrite rm_seq_S. destruct F0 as [|F0]; [reflexivity|]. rewrite rm_alt_S.
-  assert (E58' : forall G K', rm G (RClass false [(58, 58)]%N) (sg ++ (d :: ds) ++ x :: tl) n K' = None).
-  { intros G K'. destruct G as [|G]; [reflexivity|]. rewrite rm_class_S. destruct Hs as [-> | ->]; cbn [app]; [rewrite E58 |]; reflexivity. }
-  rewrite E58'. destruct F0 as [|F0]; [reflexivity|]. rewrite rm_eps_S.
-  apply (minus_digits_fail sg d ds (x :: tl)); try assumption.
-  intros j n' F' Hj. destruct F' as [|[|F']]; try reflexivity. rewrite rm_seq_S, rm_class_S.
-  destruct (suffix_head (d :: ds) x tl j ltac:(cbn [forallb]; rewrite Hd1, Hd2; reflexivity) Hj) as [(y & tl' & -> & Hy) | ->].
-  - destruct (digit_facts y Hy) as (_ & _ & X46 & _). rewrite X46. reflexivity.
-  - rewrite Hx46. reflexivity.
-Qed.
-
-(* the second alternative: sign digits e "-" digits *)
-Lemma float2_rm sg d ds e f fs c r : (sg = [] \/ sg = [45%N]) -> isd d = true -> forallb isd ds = true ->
-  in_ranges e [(101, 101); (69, 69)]%N = true -> isd f = true -> forallb isd fs = true -> isd c = false ->
-  forall F, (40 + length ds + length fs <= F)%nat ->
-  rm F RE_FLOAT (sg ++ (d :: ds) ++ e :: 45%N :: (f :: fs) ++ c :: r) 0 kid = Some (zlen sg + zlen (d :: ds) + 2 + zlen (f :: fs)).
-Proof.
-  intros Hs Hd1 Hd2 He Hf1 Hf2 Hc F HF.
-  destruct (eE_facts e He) as [HeD He46].
-  change RE_FLOAT with (RAlt (RSeq (RAlt (RClass false [(58, 58)]%N) REps) (RSeq (RAlt (RClass false [(45, 45)]%N) REps) (RSeq re_dd (RSeq (RClass false [(46, 46)]%N) (RSeq re_dd re_exp_opt)))))
-                             (RSeq (RAlt (RClass false [(45, 45)]%N) REps) (RSeq re_dd (RSeq (RClass false [(101, 101); (69, 69)]%N) (RSeq (RClass false [(45, 45)]%N) re_dd))))).
-  destruct F as [|F]; [nlia|]. rewrite rm_alt_S. rewrite (float_alt1_fail sg d ds e _ F 0 kid Hs Hd1 Hd2 HeD He46).
-  destruct (digit_facts d Hd1) as (Ed & _ & _ & E45 & _). destruct (digit_facts f Hf1) as (Ef & _ & _ & _ & _).
-  pose proof (isd_dcls _ Hd2) as Hds. pose proof (isd_dcls _ Hf2) as Hfs.
-  pose proof (nd_facts c Hc) as HcD.
-  apply sign_rm; [exact Hs | cbn [app]; exact E45 | nlia|].
-  intros G' HG'. destruct G' as [|G']; [nlia|]. rewrite rm_seq_S.
-  apply dd_rm; [exact Ed | exact Hds | exact HeD | nlia|].
-  destruct G' as [|[|[|[|G']]]]; try nlia. rewrite rm_seq_S, rm_class_S, He. cbn [xorb]. rewrite rm_seq_S, rm_class_S. change (in_ranges 45 [(45, 45)]%N) with true. cbn [xorb].
-  apply dd_rm; [exact Ef | exact Hfs | exact HcD | nlia|]. unfold kid. f_equal. nlia.
-Qed.
-
-(* ---- the two number shapes, as the token patterns describe them ---- *)
-Definition sgn (sg : list N) : Prop := sg = [] \/ sg = [45%N].
-Definition digs (l : list N) : Prop := l <> [] /\ forallb isd l = true.
-Definition eEc (e : N) : Prop := in_ranges e [(101, 101); (69, 69)]%N = true.
-Definition int_form (v : list N) : Prop :=
-  exists sg ip ex, v = sg ++ ip ++ ex /\ sgn sg /\ digs ip /\ (ex = [] \/ exists e pl ed, ex = e :: pl ++ ed /\ eEc e /\ (pl = [] \/ pl = [43%N]) /\ digs ed).
-Definition float_form (v : list N) : Prop :=
-  exists sg ip, sgn sg /\ digs ip /\
-    ((exists fp ex, v = sg ++ ip ++ 46%N :: fp ++ ex /\ digs fp /\ (ex = [] \/ exists e pm ed, ex = e :: pm ++ ed /\ eEc e /\ (pm = [] \/ pm = [43%N] \/ pm = [45%N]) /\ digs ed))
-     \/ (exists e ed, v = sg ++ ip ++ e :: 45%N :: ed /\ eEc e /\ digs ed)).
 
 Lemma lang_eEc s : lang re_eE s -> exists e, s = [e] /\ eEc e.
 Proof. intros H. apply lang_eE in H as [-> | ->]; eexists; split; reflexivity. Qed.
@@ -388,64 +39,6 @@ Proof.
     apply lang_seq_inv in H as (e & r3 & -> & He & H). apply lang_seq_inv in H as (mi & ed & -> & Hmi & Hed).
     apply lang_minus_opt in Hsg. apply lang_digits in Hip as [Hne Hd]. apply lang_eEc in He as (e0 & -> & He). apply lang_char_inv in Hmi. subst mi. apply lang_digits in Hed as [Hen Hedd].
     exists sg, ip. split; [exact Hsg|]. split; [split; assumption|]. right. exists e0, ed. split; [reflexivity|]. split; [exact He | split; assumption].
-Qed.
-
-Lemma digs_cons l : digs l -> exists d ds, l = d :: ds /\ isd d = true /\ forallb isd ds = true.
-Proof. intros [Hne Hd]. destruct l as [|d ds]; [congruence|]. cbn [forallb] in Hd. apply andb_true_iff in Hd as [H1 H2]. exists d, ds. repeat split; assumption. Qed.
-
-Lemma int_form_head v : int_form v -> exists c0 w', v = c0 :: w' /\ (c0 = 45%N \/ isd c0 = true).
-Proof.
-  intros (sg & ip & ex & -> & Hs & Hip & _). destruct (digs_cons ip Hip) as (d & ds & -> & Hd & _).
-  destruct Hs as [-> | ->]; cbn [app]; eexists; eexists; (split; [reflexivity|]); [right; exact Hd | left; reflexivity].
-Qed.
-Lemma float_form_head v : float_form v -> exists c0 w', v = c0 :: w' /\ (c0 = 45%N \/ isd c0 = true).
-Proof.
-  intros (sg & ip & Hs & Hip & Hv). destruct (digs_cons ip Hip) as (d & ds & -> & Hd & _).
-  destruct Hv as [(fp & ex & -> & _) | (e & ed & -> & _)]; destruct Hs as [-> | ->]; cbn [app]; eexists; eexists; (split; [reflexivity|]); first [right; exact Hd | left; reflexivity].
-Qed.
-
-Lemma zlen_app (a b : list N) : zlen (a ++ b) = zlen a + zlen b.
-Proof. unfold zlen. rewrite app_length. lia. Qed.
-Lemma zlen_cons (c : N) (b : list N) : zlen (c :: b) = 1 + zlen b.
-Proof. unfold zlen. cbn [length]. lia. Qed.
-
-Lemma int_form_match v c r : int_form v -> numfol c -> re_match RE_FLOAT (v ++ c :: r) = None /\ re_match RE_INT (v ++ c :: r) = Some (zlen v).
-Proof.
-  intros (sg & ip & ex & -> & Hs & Hip & Hex) Hc. destruct Hex as [-> | (e & pl & ed & -> & He & Hps & Hed)].
-  - rewrite app_nil_r. destruct Hip as [Hne Hd]. split; [apply float_nomatch_g | apply int_match_g]; assumption.
-  - destruct (digs_cons ip Hip) as (d & ds & -> & Hd1 & Hd2). destruct (digs_cons ed Hed) as (f & fs & -> & Hf1 & Hf2).
-    replace ((sg ++ (d :: ds) ++ e :: pl ++ f :: fs) ++ c :: r) with (sg ++ (d :: ds) ++ e :: pl ++ (f :: fs) ++ c :: r) by (rewrite <- !app_assoc; cbn [app]; rewrite <- !app_assoc; reflexivity).
-    split.
-    + replace (sg ++ (d :: ds) ++ e :: pl ++ (f :: fs) ++ c :: r) with (sg ++ (d :: ds) ++ e :: pl ++ f :: fs ++ c :: r) by reflexivity. apply float_nomatch_e; assumption.
-    + unfold re_match. fold kid. rewrite (int_exp_rm sg d ds e pl f fs c r Hs Hd1 Hd2 He Hps Hf1 Hf2 (proj1 Hc)).
-      * f_equal. repeat (progress (rewrite ?zlen_app, ?zlen_cons)). clear. lia.
-      * clear. repeat (progress (rewrite ?app_length; cbn [length])). lia.
-Qed.
-
-Lemma float_form_match v c r : float_form v -> numfol c -> re_match RE_FLOAT (v ++ c :: r) = Some (zlen v).
-Proof.
-  intros (sg & ip & Hs & Hip & Hv) Hc. destruct (digs_cons ip Hip) as (d & ds & -> & Hd1 & Hd2).
-  destruct Hv as [(fp & ex & -> & Hfp & Hex) | (e & ed & -> & He & Hed)].
-  - destruct (digs_cons fp Hfp) as (f & fs & -> & Hf1 & Hf2). destruct Hex as [-> | (e & pm & ed & -> & He & Hpm & Hed)].
-    + rewrite app_nil_r. apply float_match_g; try assumption; try discriminate. cbn [forallb]. rewrite Hd1, Hd2. reflexivity. cbn [forallb]. rewrite Hf1, Hf2. reflexivity.
-    + destruct (digs_cons ed Hed) as (g & gs & -> & Hg1 & Hg2).
-      replace ((sg ++ (d :: ds) ++ 46%N :: (f :: fs) ++ e :: pm ++ g :: gs) ++ c :: r) with (sg ++ (d :: ds) ++ 46%N :: (f :: fs) ++ (e :: pm ++ (g :: gs) ++ c :: r))
-        by (rewrite <- ?app_assoc; cbn [app]; rewrite <- ?app_assoc; cbn [app]; rewrite <- ?app_assoc; reflexivity).
-      unfold re_match. fold kid.
-      destruct (digit_facts g Hg1) as (Eg & _). destruct (d_signs g Hg1) as [_ Hg43]. destruct (eE_facts e He) as [HeD _].
-      rewrite (float1_rm sg d ds f fs (e :: pm ++ (g :: gs) ++ c :: r) (zlen (sg ++ (d :: ds) ++ 46%N :: (f :: fs) ++ e :: pm ++ g :: gs)) Hs Hd1 Hd2 Hf1 Hf2 HeD (length gs + 12)%nat).
-      * reflexivity.
-      * intros G' HG'. unfold re_exp_opt. rewrite (expo_rm [(43, 43); (45, 45)]%N e pm g gs c r G'); try assumption.
-        -- f_equal. repeat (progress (rewrite ?zlen_app, ?zlen_cons)). clear. lia.
-        -- destruct Hpm as [-> | [-> | ->]]; [left; reflexivity | right; exists 43%N; split; reflexivity | right; exists 45%N; split; reflexivity].
-        -- apply isd_dcls. exact Hg2.
-        -- apply nd_facts. apply Hc.
-      * clear. repeat (progress (rewrite ?app_length; cbn [length])). lia.
-  - destruct (digs_cons ed Hed) as (f & fs & -> & Hf1 & Hf2).
-    replace ((sg ++ (d :: ds) ++ e :: 45%N :: f :: fs) ++ c :: r) with (sg ++ (d :: ds) ++ e :: 45%N :: (f :: fs) ++ c :: r) by (rewrite <- ?app_assoc; cbn [app]; rewrite <- ?app_assoc; reflexivity).
-    unfold re_match. fold kid. rewrite (float2_rm sg d ds e f fs c r Hs Hd1 Hd2 He Hf1 Hf2 (proj1 Hc)).
-    + f_equal. repeat (progress (rewrite ?zlen_app, ?zlen_cons)). clear. lia.
-    + clear. repeat (progress (rewrite ?app_length; cbn [length])). lia.
 Qed.
 
 (* ---- the step and reach lemmas of Proofs/LexComplete.v for arbitrary filter stacks and an arbitrary outer bracket stack ---- *)
